@@ -34,7 +34,10 @@ pub struct Obs {
     /// the map view read through the other channels: (channel, pairs in order);
     /// channels: serde, sval (p.as_map()), serde-dedup, sval-dedup (p.dedup().as_map())
     pub ser: Vec<(String, Result<Vec<KV>, String>)>,
-    /// keys of the Display and Debug renderings of p.as_map()
+    /// lookups by every proper prefix (the empty one included) cut from the front of each
+    /// key as enumeration hands it out: (text, what get returned)
+    pub prefix_get: Vec<(String, Option<i64>)>,
+    /// keys of the Display and Debug renderings of p.as_map() and p.dedup().as_map()
     pub shown: Vec<(String, Result<Vec<String>, String>)>,
 }
 
@@ -99,10 +102,10 @@ fn enumerate<P: Props + ?Sized>(p: &P, break_at: usize, bad: &mut bool) -> (Vec<
     (out, calls, flow.is_break())
 }
 
-fn lookups<P: Props + ?Sized>(p: &P, keys: &[String], bad: &mut bool) -> (Vec<(String, Option<i64>)>, Vec<(String, Option<i64>)>) {
+fn lookups<P: Props + ?Sized>(p: &P, keys: &[String], same_buffer: bool, bad: &mut bool) -> (Vec<(String, Option<i64>)>, Vec<(String, Option<i64>)>) {
     let mut get = Vec::new();
     let mut pull = Vec::new();
-    for k in keys.iter().map(|s| s.as_str()).chain(std::iter::once(ABSENT)) {
+    for k in keys.iter().map(|s| if same_buffer { shared_key(s) } else { s.as_str() }).chain(std::iter::once(ABSENT)) {
         let g = p.get(k).map(|v| match as_i64(&v) {
             Some(i) => i,
             None => {
@@ -121,8 +124,112 @@ fn lookups<P: Props + ?Sized>(p: &P, keys: &[String], bad: &mut bool) -> (Vec<(S
     (get, pull)
 }
 
+/// Lookup keys that share their start address with a key of the collection: every proper
+/// prefix of each key, sliced from the very bytes enumeration hands out.
+fn prefix_lookups<P: Props + ?Sized>(p: &P, bad: &mut bool) -> Vec<(String, Option<i64>)> {
+    let mut out = Vec::new();
+    let _ = p.for_each(|k, _| {
+        let text = k.get();
+        for n in (0..text.len()).filter(|n| text.is_char_boundary(*n)) {
+            let sub = &text[..n];
+            let got = p.get(sub).map(|v| as_i64(&v).unwrap_or(i64::MIN));
+            if p.get(emit::Str::new_ref(sub)).and_then(|v| as_i64(&v)) != got.filter(|g| *g != i64::MIN) {
+                *bad = true;
+            }
+            out.push((sub.to_string(), got));
+        }
+        ControlFlow::Continue(())
+    });
+    out
+}
+
+// ---- key storage forms (spec/Props.tla KeyForms) ------------------------------------------
+#[derive(Clone, Copy, PartialEq, Eq, Debug)]
+pub enum KeyForm {
+    Literal,
+    StringKey,
+    SharedBuf,
+    StrRef,
+    StrOwned,
+    StrShared,
+}
+
+impl KeyForm {
+    pub fn parse(s: &str) -> KeyForm {
+        match s {
+            "literal" => KeyForm::Literal,
+            "string" => KeyForm::StringKey,
+            "shared_buf" => KeyForm::SharedBuf,
+            "str_ref" => KeyForm::StrRef,
+            "str_owned" => KeyForm::StrOwned,
+            "str_shared" => KeyForm::StrShared,
+            f => tool_error(&format!("key form {f}")),
+        }
+    }
+    /// keys (stored and looked up) are slices of the one shared buffer
+    pub fn in_shared_buffer(self) -> bool {
+        matches!(self, KeyForm::SharedBuf | KeyForm::StrRef)
+    }
+}
+
+thread_local! {
+    static KEYFORM: std::cell::Cell<KeyForm> = std::cell::Cell::new(KeyForm::Literal);
+    static SHARED: std::cell::RefCell<Vec<(String, &'static str)>> = std::cell::RefCell::new(Vec::new());
+}
+
+pub fn key_form() -> KeyForm {
+    KEYFORM.with(|f| f.get())
+}
+
+/// Select the storage form for the collections built from now on (this thread) and lay the
+/// key universe out in one buffer: the concatenation, in byte order, of the keys that are not
+/// a proper prefix of another key; a key that is a prefix of others is the slice at the start
+/// of the first of them (the empty key: offset 0, length 0).
+pub fn set_key_form(form: KeyForm, universe: &[String]) {
+    KEYFORM.with(|f| f.set(form));
+    let mut u: Vec<&str> = universe.iter().map(|s| s.as_str()).collect();
+    u.sort_by(|a, b| a.as_bytes().cmp(b.as_bytes()));
+    u.dedup();
+    let maximal: Vec<&str> = u.iter().copied().filter(|k| !u.iter().any(|o| o != k && o.starts_with(k))).collect();
+    let buf: &'static str = leak_str(&maximal.concat());
+    let mut table = Vec::new();
+    for k in &u {
+        let mut off = 0usize;
+        let mut hit = None;
+        for m in &maximal {
+            if m.starts_with(k) {
+                hit = Some(&buf[off..off + k.len()]);
+                break;
+            }
+            off += m.len();
+        }
+        // (only the empty key of an empty universe has no host)
+        table.push((k.to_string(), hit.unwrap_or(&buf[0..0])));
+    }
+    SHARED.with(|s| *s.borrow_mut() = table);
+}
+
+/// The slice of the shared buffer that holds this key text.
+pub fn shared_key(k: &str) -> &'static str {
+    SHARED.with(|s| {
+        s.borrow().iter().find(|e| e.0 == k).map(|e| e.1).unwrap_or_else(|| tool_error(&format!("key {k:?} is not in the universe of the case")))
+    })
+}
+
+/// A stored key as a `&'static str` in the current form.
+pub fn key_static(k: &str) -> &'static str {
+    if key_form().in_shared_buffer() {
+        shared_key(k)
+    } else {
+        leak_str(k)
+    }
+}
+
 /// Everything the public API lets one see of a collection.
 pub fn observe<P: Props>(p: &P, keys: &[String]) -> Obs {
+    // lookup keys: allocations of their own, or - when the stored keys live in the shared
+    // buffer - slices of that buffer too
+    let lookup_same_buffer = key_form().in_shared_buffer();
     let mut bad = false;
     let (full, _, _) = enumerate(p, 0, &mut bad);
     let mut brk = Vec::new();
@@ -130,11 +237,12 @@ pub fn observe<P: Props>(p: &P, keys: &[String]) -> Obs {
         let (vis, calls, b) = enumerate(p, n, &mut bad);
         brk.push((n, calls, b, vis));
     }
-    let (get, pull) = lookups(p, keys, &mut bad);
+    let (get, pull) = lookups(p, keys, lookup_same_buffer, &mut bad);
+    let prefix_get = prefix_lookups(p, &mut bad);
     let uniq = p.is_unique();
     let d = p.dedup();
     let (dedup_full, _, _) = enumerate(d, 0, &mut bad);
-    let (dedup_get, _) = lookups(d, keys, &mut bad);
+    let (dedup_get, _) = lookups(d, keys, lookup_same_buffer, &mut bad);
     let dedup_uniq = d.is_unique();
     let ser = vec![
         ("serde".to_string(), serde_json::to_string(p.as_map()).map_err(|e| e.to_string()).and_then(|t| flat_json(&t))),
@@ -145,8 +253,10 @@ pub fn observe<P: Props>(p: &P, keys: &[String]) -> Obs {
     let shown = vec![
         ("display".to_string(), shown_keys(&format!("{}", p.as_map()))),
         ("debug".to_string(), shown_keys(&format!("{:?}", p.as_map()))),
+        ("display-dedup".to_string(), shown_keys(&format!("{}", d.as_map()))),
+        ("debug-dedup".to_string(), shown_keys(&format!("{:?}", d.as_map()))),
     ];
-    Obs { full, brk, get, pull, uniq, dedup_full, dedup_get, dedup_uniq, bad_value: bad, ser, shown }
+    Obs { full, brk, get, pull, uniq, dedup_full, dedup_get, dedup_uniq, bad_value: bad, prefix_get, ser, shown }
 }
 
 /// Read a flat JSON object `{"k": v, ..}` keeping order and duplicates (serde_json's own
@@ -376,6 +486,16 @@ pub fn compare(obs: &Obs, case: &Value, checks: &mut u64) -> (Vec<Value>, Vec<Va
             bad.push(json!({"clause": "dedup-get-is-first", "key": k, "want": want, "got": obs.dedup_get[i].1}));
         }
     }
+    // a lookup key cut from the front of an enumerated key is the key of that TEXT
+    for (text, got) in &obs.prefix_get {
+        *checks += 1;
+        let want = first(&spec_flat, text);
+        if *got != want || *got != first(&obs.full, text) {
+            bad.push(json!({"clause": "get-is-first", "lookup": "prefix slice of an enumerated key", "key": text, "want": want, "got": got,
+                            "first_of_observed_enumeration": first(&obs.full, text), "enumeration": kvj(&obs.full)}));
+            break;
+        }
+    }
     let last = obs.get.last().unwrap();
     *checks += 1;
     if last.0 != ABSENT || last.1.is_some() || obs.pull.last().unwrap().1.is_some() || obs.dedup_get.last().unwrap().1.is_some() {
@@ -434,7 +554,7 @@ pub fn compare(obs: &Obs, case: &Value, checks: &mut u64) -> (Vec<Value>, Vec<Va
     }
     for (chan, got) in &obs.shown {
         *checks += 1;
-        let want: Vec<String> = obs.full.iter().map(|e| e.0.clone()).collect();
+        let want: Vec<String> = if chan.ends_with("-dedup") { &obs.dedup_full } else { &obs.full }.iter().map(|e| e.0.clone()).collect();
         match got {
             Ok(g) if *g == want => {}
             Ok(g) => bad.push(json!({"clause": "map-view-rendering", "channel": chan, "want_keys": want, "got_keys": g})),
@@ -480,7 +600,45 @@ pub fn leak_str(s: &str) -> &'static str {
 }
 
 pub fn pairs(t: &Value) -> Vec<(&'static str, i64)> {
-    kvs_of(&t["kvs"]).into_iter().map(|(k, v)| (leak_str(&k), v)).collect()
+    kvs_of(&t["kvs"]).into_iter().map(|(k, v)| (key_static(&k), v)).collect()
+}
+
+/// pair / array / slice / BTreeMap / HashMap over keys of type K
+fn dyn_leaf<K>(op: &str, kvs: Vec<(K, i64)>) -> Dyn
+where
+    K: emit::str::ToStr + Ord + std::hash::Hash + Eq + std::borrow::Borrow<str> + 'static,
+{
+    let n = kvs.len();
+    let mut it = kvs.into_iter();
+    let mut next = || it.next().unwrap();
+    match op {
+        "pair" => leak(next()),
+        "arr" => match n {
+            0 => leak::<[(K, i64); 0]>([]),
+            1 => leak([next()]),
+            2 => leak([next(), next()]),
+            3 => leak([next(), next(), next()]),
+            _ => tool_error("arr longer than 3"),
+        },
+        // a borrowed unsized slice: `&[P]`
+        "slice" => leak(&*Box::leak(it.collect::<Vec<_>>().into_boxed_slice())),
+        "btree" => leak(it.collect::<BTreeMap<K, i64>>()),
+        "hash" => leak(it.collect::<HashMap<K, i64>>()),
+        _ => tool_error(&format!("leaf op {op}")),
+    }
+}
+
+/// A leaf whose keys the harness supplies, stored in the current key form.
+fn leaf_in_form(t: &Value) -> Dyn {
+    let op = t["op"].as_str().unwrap();
+    let kvs = kvs_of(&t["kvs"]);
+    match key_form() {
+        KeyForm::Literal | KeyForm::SharedBuf => dyn_leaf(op, kvs.into_iter().map(|(k, v)| (key_static(&k), v)).collect()),
+        KeyForm::StringKey => dyn_leaf(op, kvs),
+        KeyForm::StrRef => dyn_leaf(op, kvs.into_iter().map(|(k, v)| (emit::Str::new_ref(key_static(&k)), v)).collect()),
+        KeyForm::StrOwned => dyn_leaf(op, kvs.into_iter().map(|(k, v)| (emit::Str::new_owned(k), v)).collect()),
+        KeyForm::StrShared => dyn_leaf(op, kvs.into_iter().map(|(k, v)| (emit::Str::new_shared(k), v)).collect()),
+    }
 }
 
 /// What a thread-local context holds after the pairs were pushed as a frame, as seen by
@@ -511,7 +669,7 @@ pub fn ctxt_snapshot_nested(frames: &[Vec<(&'static str, i64)>]) -> emit::platfo
 pub fn ctxt_of(t: &Value) -> emit::platform::thread_local_ctxt::ThreadLocalCtxtFrame {
     match t.get("frames") {
         Some(f) => ctxt_snapshot_nested(
-            &f.as_array().unwrap().iter().map(|fr| kvs_of(fr).into_iter().map(|(k, v)| (leak_str(&k), v)).collect()).collect::<Vec<_>>(),
+            &f.as_array().unwrap().iter().map(|fr| kvs_of(fr).into_iter().map(|(k, v)| (key_static(&k), v)).collect()).collect::<Vec<_>>(),
         ),
         None => ctxt_snapshot(&pairs(t)),
     }
@@ -536,6 +694,20 @@ pub fn resolution_applies(t: &Value) -> (bool, bool) {
             let pushed: Vec<KV> = frames.as_array().unwrap().iter().flat_map(|f| kvs_of(f)).collect();
             alien = bad || got.iter().any(|e| !pushed.contains(e));
         }
+    }
+    // (the same for what a half-open Range<Option<Timestamp>> converts to)
+    let half_open = t["src"] == "optrange" && (t["a"].as_i64() == Some(0)) != (t["b"].as_i64() == Some(0));
+    if t["op"] == "extent" && half_open {
+        let mut bad = false;
+        let (got, _, _) = enumerate(&extent_from_source(t), 0, &mut bad);
+        let mut want = kvs_of(&t["kvs"]);
+        want.sort();
+        let mut sorted_got = got.clone();
+        sorted_got.sort();
+        applies = sorted_got == want;
+        // nothing but the given bounds may appear, under the two well-known keys
+        alien = bad
+            || got.iter().any(|e| !(e.0 == "ts" || e.0 == "ts_start") || !(Some(e.1) == t["a"].as_i64() || Some(e.1) == t["b"].as_i64()));
     }
     for f in ["t", "l", "r"] {
         if let Some(c) = t.get(f) {
@@ -642,6 +814,49 @@ pub fn extent_view(p: &[(&'static str, i64)]) -> emit::Extent {
     }
 }
 
+/// An extent leaf that names its source (`src`, start `a`, end `b`; 0: not given): the
+/// extent as the named public entry point hands it out.
+pub fn extent_from_source(t: &Value) -> Option<emit::Extent> {
+    use emit::extent::ToExtent;
+    let opt = |f: &str| match t[f].as_i64().unwrap_or_else(|| tool_error("extent source without bounds")) {
+        0 => None,
+        v => Some(ts(v)),
+    };
+    let (a, b) = (opt("a"), opt("b"));
+    // the plain constructors, for the sources that start from an Extent
+    let direct = || match (a, b) {
+        (Some(a), Some(b)) => Some(emit::Extent::range(a..b)),
+        (None, Some(b)) => Some(emit::Extent::point(b)),
+        (None, None) => None,
+        _ => tool_error("extent source: start without end"),
+    };
+    let src = t["src"].as_str().unwrap();
+    let user = ("u", 1i64);
+    match src {
+        "ts" => b.unwrap_or_else(|| tool_error("ts source without b")).to_extent(),
+        "range_ts" => (a.unwrap()..b.unwrap()).to_extent(),
+        "optrange" => (a..b).to_extent(),
+        "opt" => direct().to_extent(),
+        "ref" => {
+            let e = direct().unwrap_or_else(|| tool_error("ref source without extent"));
+            let r: &emit::Extent = &e;
+            ToExtent::to_extent(&r)
+        }
+        "span" => emit::span::Span::new(emit::Path::new_raw("m"), SPAN_NAME, direct(), user).to_extent(),
+        "span_with" => emit::span::Span::new(emit::Path::new_raw("m"), SPAN_NAME, ts(1), user).with_extent(direct()).to_extent(),
+        "metric" => emit::metric::Metric::new(emit::Path::new_raw("m"), METRIC_NAME, METRIC_AGG, direct(), METRIC_VALUE, user).to_extent(),
+        "metric_with" => emit::metric::Metric::new(emit::Path::new_raw("m"), METRIC_NAME, METRIC_AGG, ts(1)..ts(2), METRIC_VALUE, user)
+            .with_extent(direct())
+            .to_extent(),
+        "event" => emit::Event::new(emit::Path::new_raw("m"), emit::Template::literal("t"), direct(), user).extent().cloned(),
+        "event_with" => emit::Event::new(emit::Path::new_raw("m"), emit::Template::literal("t"), ts(1), user)
+            .with_extent(direct())
+            .extent()
+            .cloned(),
+        s => tool_error(&format!("extent source {s}")),
+    }
+}
+
 pub fn span_ctxt_view(p: &[(&'static str, i64)]) -> emit::span::SpanCtxt {
     let get = |k: &str| p.iter().find(|e| e.0 == k).map(|e| e.1);
     emit::span::SpanCtxt::new(
@@ -656,38 +871,13 @@ pub fn interp(t: &Value) -> Dyn {
     match op {
         "empty" => leak(emit::Empty),
         "none" => leak(None::<(&'static str, i64)>),
-        "pair" => leak(pairs(t)[0]),
-        "arr" => {
-            let p = pairs(t);
-            match p.len() {
-                0 => leak::<[(&'static str, i64); 0]>([]),
-                1 => leak([p[0]]),
-                2 => leak([p[0], p[1]]),
-                3 => leak([p[0], p[1], p[2]]),
-                _ => tool_error("arr longer than 3"),
-            }
-        }
-        // a borrowed unsized slice: `&[P]`
-        "slice" => leak(&*Box::leak(pairs(t).into_boxed_slice())),
-        "btree" => {
-            let mut m = BTreeMap::new();
-            for (k, v) in pairs(t) {
-                m.insert(k.to_string(), v);
-            }
-            leak(m)
-        }
-        "hash" => {
-            let mut m = HashMap::new();
-            for (k, v) in pairs(t) {
-                m.insert(k, v);
-            }
-            leak(m)
-        }
+        "pair" | "arr" | "slice" | "btree" | "hash" => leaf_in_form(t),
         "ctxt" => leak(ctxt_of(t)),
         "span" => span_view(interp(&t["t"])),
         "metric" => metric_view(interp(&t["t"])),
         "span_with" => span_view_with(interp(&t["t"])),
         "metric_with" => metric_view_with(interp(&t["t"])),
+        "extent" if t.get("src").is_some() => leak(extent_from_source(t)),
         "extent" => leak(extent_view(&pairs(t))),
         "spanctxt" => leak(span_ctxt_view(&pairs(t))),
         "opt" => leak(Some(interp(&t["t"]))),
